@@ -39,6 +39,13 @@ ASSUMPTIONS = ['default registry (no user registrations): C13 covers registratio
 # PathAccessError on the read-back, the Assign having set an attribute on the ChainMap object)
 S_FIRST_PLAIN_P = M.S_FIRST_PLAIN_P
 
+# Read an S-rooted path back THROUGH a wildcard?  On the current tree a wildcard in an S-rooted path
+# that is evaluated applies the rest of the path to the scope, not to the entries
+# (`glom({}, S['e'].__star__(), scope={'e': [1, 2]})` is two ChainMaps — `_t_eval` keeps the root S for
+# the recursive call; reported as a potential genuine defect).  False: such a read-back is cut in front
+# of the first wildcard.
+S_STAR_READBACK = False
+
 MISSING = [None] * 8 + ['dict'] * 5 + ['list', 'obj', 'obj', 'raise']
 
 
@@ -66,6 +73,12 @@ def gen_readback(rng, steps, style, p, sroot=False):
     if rng.random() >= p or not steps:
         return None
     n = len(steps) if rng.random() < 0.6 else rng.randint(1, len(steps))
+    if sroot and not S_STAR_READBACK:
+        stars = [i for i, st in enumerate(steps[:n]) if st[0] == 'star']
+        if stars:
+            n = stars[0]
+            if n == 0:
+                return None
     sp = M.spell(rng, steps[:n], style)
     return {'spelling': M.s_first(rng, sp, S_FIRST_PLAIN_P) if sroot else sp}
 
